@@ -259,8 +259,14 @@ func (c *clusterClient) DownloadBlob(ctx context.Context, namespace string, d co
 
 	log.WithTraceContext(ctx).With("namespace", namespace, "digest", d.Hex()).Debug("Starting blob download from origin cluster")
 
+	// dst cannot be rewound: once an attempt has written part of the blob, another
+	// origin would append a second copy after it, so such a failure is final.
+	cw := &countingWriter{w: dst}
 	err := Poll(c.resolver, c.defaultPollBackOff(), d, func(client Client) error {
-		return client.DownloadBlob(ctx, namespace, d, dst)
+		if cw.n > 0 {
+			return errPartialDownload
+		}
+		return client.DownloadBlob(ctx, namespace, d, cw)
 	})
 	if httputil.IsNotFound(err) {
 		span.SetStatus(codes.Error, "blob not found")
@@ -274,6 +280,20 @@ func (c *clusterClient) DownloadBlob(ctx context.Context, namespace string, d co
 		log.WithTraceContext(ctx).With("namespace", namespace, "digest", d.Hex()).Debug("Blob download succeeded")
 	}
 	return err
+}
+
+var errPartialDownload = errors.New("download failed after part of the blob was written to the destination")
+
+// countingWriter counts the bytes written through it.
+type countingWriter struct {
+	w io.Writer
+	n int64
+}
+
+func (cw *countingWriter) Write(p []byte) (int, error) {
+	n, err := cw.w.Write(p)
+	cw.n += int64(n)
+	return n, err
 }
 
 // PrefetchBlob preheats a blob in the origin cluster for downloading.
